@@ -224,6 +224,10 @@ class Escape:
                     return True
                 if p is False and k == "(0 == %s.count(%s))" % (obj, key):
                     return True
+            # the key is present on every path for one of two reasons: it was found, or a member function that stores into this map on
+            # every successful return has just succeeded (`if (m.find(k) == m.end()) { if (!this->registerX(..)) continue; }  m.at(k)`)
+            if obj.startswith("this->") and n.get("args"):
+                return self._key_established(f, i, obj, key)
             return False
         if last == "at":
             idx = f.text(n["args"][0]) if n.get("args") else "?"
@@ -263,6 +267,44 @@ class Escape:
             if f.nodes[b].get("op") == "=" and f.text(f.nodes[b]["l"]) == obj:
                 return False
         return True
+
+    def _stores_on_success(self, h, field):
+        """Does member function h write the map `field` (by key) before every `return true`?"""
+        from .rules.common import field_writes, returns, ret_text
+        ws = [w for w in field_writes(h, field) if h.pos_of(w) is not None]
+        ws += [c for c in h.calls("insert_or_assign", "emplace", "try_emplace", "insert") if "recv" in h.nodes[c] and h.text(h.nodes[c]["recv"]) == "this->" + field
+               and h.pos_of(c) is not None]
+        if not ws:
+            return False
+        fl = Flow(self.prog, h, events={w: [("set", "stored")] for w in ws}, cg=self.cg)
+        rt = [r for r in returns(h) if ret_text(h, r) == "true"]
+        return bool(rt) and all(fl.must(r, "stored") for r in rt)
+
+    def _key_established(self, f, i, obj, key):
+        field = obj[len("this->"):]
+        found_f = ("(%s.end() == %s.find(%s))" % (obj, obj, key), "(%s.find(%s) == %s.end())" % (obj, key, obj), "(0 == %s.count(%s))" % (obj, key))
+        found_t = ("%s.count(%s)" % (obj, key), "%s.contains(%s)" % (obj, key), "(0 < %s.count(%s))" % (obj, key))
+        helpers = {}
+
+        def tok(k, p):
+            if not isinstance(k, str):
+                return None
+            if (k in found_f and p is False) or (k in found_t and p is True):
+                return ["present"]
+            m = re.match(r"^this->(\w+)\(", k)
+            if m and p is True:
+                nm = m.group(1)
+                if nm not in helpers:
+                    hs = [h for h in self.prog.fns.values() if h.name == nm and h.cls == f.cls and h.kind == "method"]
+                    helpers[nm] = len(hs) == 1 and self._stores_on_success(hs[0], field)
+                if helpers[nm]:
+                    return ["present"]
+            return None
+        try:
+            fl = Flow(self.prog, f, cg=self.cg, edge_tokens=tok, split=lambda k: k in found_f or k in found_t)
+            return fl.must(i, "present")
+        except KeyError:
+            return False
 
     # ------------------------------------------------------------ propagation
     def caught_at(self, f, node, exc):
